@@ -266,11 +266,7 @@ func (qr *queryRequest) error(e *Error) {
 	if e == nil {
 		e = ErrInternalError
 	}
-	data, err := json.Marshal(errorResponse{Error: e})
-	if err != nil {
-		data = responseInternalError
-	}
-	qr.reply(data)
+	qr.reply(encodeError(errorResponse{Error: e}))
 }
 
 // success sends a successful response as a reply.
